@@ -18,6 +18,7 @@
 
 import Proofs.ConvLife
 import Proofs.B64
+import Proofs.SendShape
 namespace Otr.C03
 open Otr
 
@@ -68,5 +69,52 @@ theorem b64encode_not_mem (x : Bytes) :
 
 theorem b64encode_length (x : Bytes) : (b64encode x).length = 4 * ((x.length + 2) / 3) := by
   first | exact Otr.b64encode_length | exact @Otr.b64encode_length | (apply Otr.b64encode_length <;> assumption) | (intros; apply Otr.b64encode_length <;> assumption)
+
+
+/-! ### the encrypted state (Proofs/SendShape.lean): the text reaches the wire only through `K.ctr`
+
+  `send_encrypted_exact`: in the encrypted state the wire output of `Send text` is
+  `dataWire K conv (K.ctr sendAESKey iv (plaintextOf text))` — header, key ids, next DH key, counter,
+  ciphertext, MAC over exactly these, revealed MAC keys, armour, fragments — where the text occurs
+  only inside the AES-CTR call (and, through the ciphertext, under the MAC); `plaintextOf_length`: the
+  length of what is encrypted depends on the length of the text only (padding to 256).
+  `send_encrypted_text_only_via_ctr`: two texts and two crypto records that agree except for `ctr`
+  give the same wire output whenever the ciphertexts agree — the wire tells about the text only what
+  the ciphertext tells. `queued_text_only_via_ctr`, `retransmit_exact`: the same for texts released
+  from the queue after the key exchange and for the "[resent] " retransmission.
+  `send_wire_is_armoured`, `WireText.not_infix`: everything emitted consists of the message/fragment
+  markers and base64 characters; a text with any other byte is not an infix of it.
+  Not proved (assumed, see the property's assumptions): secrecy of AES-CTR and of the DH-derived keys. -/
+theorem plaintextOf_length : type_of% @Otr.plaintextOf_length := @Otr.plaintextOf_length
+
+theorem send_encrypted_exact : type_of% @Otr.send_encrypted_exact := @Otr.send_encrypted_exact
+
+theorem send_encrypted_wire : type_of% @Otr.send_encrypted_wire := @Otr.send_encrypted_wire
+
+theorem send_encrypted_successor : type_of% @Otr.send_encrypted_successor := @Otr.send_encrypted_successor
+
+theorem sendAES_dh : type_of% @Otr.sendAES_dh := @Otr.sendAES_dh
+
+theorem send_encrypted_text_only_via_ctr : type_of% @Otr.send_encrypted_text_only_via_ctr := @Otr.send_encrypted_text_only_via_ctr
+
+theorem send_encrypted_text_only_via_ctr_some : type_of% @Otr.send_encrypted_text_only_via_ctr_some := @Otr.send_encrypted_text_only_via_ctr_some
+
+theorem send_encrypted_run : type_of% @Otr.send_encrypted_run := @Otr.send_encrypted_run
+
+theorem send_encrypted_text_only_via_ctr_any : type_of% @Otr.send_encrypted_text_only_via_ctr_any := @Otr.send_encrypted_text_only_via_ctr_any
+
+theorem retransmit_exact : type_of% @Otr.retransmit_exact := @Otr.retransmit_exact
+
+theorem maybeRetransmit_run : type_of% @Otr.maybeRetransmit_run := @Otr.maybeRetransmit_run
+
+theorem queued_text_only_via_ctr : type_of% @Otr.queued_text_only_via_ctr := @Otr.queued_text_only_via_ctr
+
+theorem queued_text_only_via_ctr_maybe : type_of% @Otr.queued_text_only_via_ctr_maybe := @Otr.queued_text_only_via_ctr_maybe
+
+theorem queued_wire_is_armoured : type_of% @Otr.queued_wire_is_armoured := @Otr.queued_wire_is_armoured
+
+theorem WireText_not_infix : type_of% @Otr.WireText.not_infix := @Otr.WireText.not_infix
+
+theorem send_wire_is_armoured : type_of% @Otr.send_wire_is_armoured := @Otr.send_wire_is_armoured
 
 end Otr.C03
